@@ -76,6 +76,21 @@ for i, k in enumerate(["k1", "k2", "k3", "k1", "k2", "k3", "k3", "k2", "k1"]):
 add(KD, "three_keys_two_clients_room", three, seq2)
 json.dump(KD, open(os.path.join(here, "keys_directed.json"), "w"), indent=0)
 
+# an origin that stays silent for seconds of REAL time while a request is parked behind the fetch (quick: 10.5 s, thorough: x3):
+# nothing in pike may move by itself meanwhile; when the answer comes everybody is served from it
+single = {"disps": [{"name": "d1", "limit": 0, "hfp": 1, "store": False}], "keys": {"k1": 1}}
+SL = []
+for out in ("cacheable", "uncacheable"):
+    slow = [{"a": "Start", "p": "r1", "k": "k1", "d": "d1", "m": "GET"}, {"a": "Lookup", "p": "r1"}, {"a": "GetStep", "p": "r1", "res": "none"}, {"a": "UpStart", "p": "r1"},
+            {"a": "Start", "p": "r2", "k": "k1", "d": "d1", "m": "GET"}, {"a": "Lookup", "p": "r2"}, {"a": "GetStep", "p": "r2", "res": "none"}, {"a": "ReleaseIf", "p": "r2"},
+            {"a": "Hold", "ms": 10500},
+            {"a": "Start", "p": "r3", "k": "k1", "d": "d1", "m": "GET"}, {"a": "Lookup", "p": "r3"}, {"a": "GetStep", "p": "r3", "res": "none"}, {"a": "ReleaseIf", "p": "r3"},
+            {"a": "FetchEndIf", "p": "r1", "out": out, "ttl": 2}] + R("r1", 8) + R("r2", 4) + R("r3", 4) + \
+           [{"a": "FetchEndIf", "p": "r2", "out": out, "ttl": 2}, {"a": "FetchEndIf", "p": "r3", "out": out, "ttl": 2}] + R("r2") + R("r3") + ask("r4", "k1", "d1") + \
+           [{"a": "ReleaseIf", "p": "r4"}, {"a": "FetchEndIf", "p": "r4", "out": out, "ttl": 2}] + R("r4")
+    add(SL, "silent_origin_" + out, single, slow)
+json.dump(SL, open(os.path.join(here, "slow_directed.json"), "w"), indent=0)
+
 # the known finding KF-C18-evicted-inflight
 K = [{"a": "Start", "p": "r1", "k": "k1", "d": "d1", "m": "GET"}, {"a": "Lookup", "p": "r1"}, {"a": "GetStep", "p": "r1", "res": "notfound"}, {"a": "UpStart", "p": "r1"},
      {"a": "Start", "p": "r2", "k": "k2", "d": "d1", "m": "GET"}, {"a": "Lookup", "p": "r2"}] + purge("p1", "k1", "d1") + \
